@@ -217,6 +217,12 @@ func c06Corpus() []jCase {
 			{Op: "add", Kind: "audio", Dir: "recvonly"},
 			{Op: "srd", Ty: "offer", Desc: &jDesc{Secs: []jSec{sec("video", "0", "sendrecv")}, Group: jStr("BUNDLE 0")}},
 			{Op: "offer"}}},
+		// greaterMid wraps around after a remote mid MaxInt64-1
+		{Peers: 1, Ops: []jOp{
+			{Op: "srd", Ty: "offer", Desc: &jDesc{Secs: []jSec{sec("video", "9223372036854775806", "sendrecv")}, Group: jStr("BUNDLE 9223372036854775806")}},
+			{Op: "answer"}, {Op: "sld", Ty: "answer"},
+			{Op: "add", Kind: "audio", Dir: "recvonly"}, {Op: "add", Kind: "audio", Dir: "recvonly"}, {Op: "offer"},
+			{Op: "add", Kind: "audio", Dir: "recvonly"}, {Op: "offer"}}},
 		// plain two-peer exchange with data channel and renegotiation from the other side
 		{Peers: 2, Ops: []jOp{
 			{P: 0, Op: "add", Kind: "audio", Dir: "sendrecv"}, {P: 0, Op: "dc"},
@@ -239,7 +245,7 @@ func init() {
 	Register(Spec[jCase]{
 		ID: "C06", Suite: "synth", CoqImports: imports,
 		CoqType: "list (list op)", CoqRun: jRunName("C06"),
-		Quick: 220, Thorough: 3000, Parallel: 8,
+		Quick: 150, Thorough: 3000, Parallel: 8,
 		Corpus: c06Corpus,
 		Gen:    func(r *Rand, i int) jCase { return jGenSynth(r, 10) },
 		Run:    c06Run, Coq: jCoqOf, Shrink: jShrink,
@@ -247,14 +253,14 @@ func init() {
 	Register(Spec[jCase]{
 		ID: "C06", Suite: "hostile", CoqImports: imports,
 		CoqType: "list (list op)", CoqRun: jRunName("C06"),
-		Quick: 120, Thorough: 1500, Parallel: 8,
+		Quick: 80, Thorough: 1500, Parallel: 8,
 		Gen: func(r *Rand, i int) jCase { return jGenSynth(r, 30) },
 		Run: c06Run, Coq: jCoqOf, Shrink: jShrink,
 	})
 	Register(Spec[jCase]{
 		ID: "C06", Suite: "pair", CoqImports: imports,
 		CoqType: "list (list op)", CoqRun: jRunName("C06"),
-		Quick: 120, Thorough: 1500, Parallel: 8,
+		Quick: 80, Thorough: 1500, Parallel: 8,
 		Gen: func(r *Rand, i int) jCase { return jGenPair(r, 10) },
 		Run: c06Run, Coq: jCoqOf, Shrink: jShrink,
 	})
@@ -262,7 +268,7 @@ func init() {
 	Register(Spec[c06Num]{
 		ID: "C06", Suite: "numeral", CoqImports: imports,
 		CoqType: "Z * string", CoqRun: "Check.C06.run_numeral",
-		Quick: 300, Thorough: 5000,
+		Quick: 200, Thorough: 5000,
 		Corpus: func() []c06Num {
 			return []c06Num{{0, ""}, {-1, "+"}, {9223372036854775807, "9223372036854775807"}, {-9223372036854775808, "-9223372036854775808"},
 				{1, "9223372036854775808"}, {2, "-9223372036854775809"}, {3, "-0"}, {4, "+007"}, {5, "1_0"}, {6, " 1"}, {7, "0x10"}, {8, "--1"}, {9, "+-1"}, {10, "1 "}}
